@@ -147,11 +147,20 @@ def run_fw(pid, tier, seed, replay, ctx, gens, tags, mech=None, budget=None):
     }
 
 
+FW_ASSUMPTIONS = [
+    "the theorems are about the hand-written Lean model; its agreement with the Rust code is established by sampling (differential correspondence on actions, internal snapshot and hooked internal log), not proved",
+    "u64 packet counters are unbounded naturals in the model (overflow needs 2^64 reported events)",
+    "IEEE-754 arithmetic is the Rat-based model MbVerif/Fp.lean (one correctly rounded step per operation)",
+    "randomness is an arbitrary oracle in the theorems and the hook log of the compared run in the correspondence",
+]
+
+
 def fw(gens, tags, mech=None, **kw):
     def run(pid, tier, seed, replay, ctx):
         return run_fw(pid, tier, seed, replay, ctx, gens, tags, mech)
     d = {"run": run, "files": FW_FILES}
     d.update(kw)
+    d["assumptions"] = FW_ASSUMPTIONS + kw.get("assumptions", [])
     return d
 
 
